@@ -65,6 +65,7 @@ type summary struct {
 	GoStmts   int `json:"go_statements_turned_into_scheduled_tasks"`
 	ChanOps   int `json:"channel_sends_and_receives_made_cooperative"`
 	OnceTypes int `json:"sync_once_and_waitgroup_types_rewritten"`
+	AtomicOps int `json:"sync_atomic_operations_given_a_scheduling_point"`
 }
 
 func fatal(f string, a ...interface{}) {
@@ -175,7 +176,7 @@ func main() {
 								otherSync["sync."+x.Sel.Name+" "+fname+":"+fmt.Sprint(fset.Position(x.Pos()).Line)] = true
 							}
 						case "sync/atomic":
-							otherSync["sync/atomic."+x.Sel.Name+" "+fname+":"+fmt.Sprint(fset.Position(x.Pos()).Line)] = true
+							handledSync = true // every atomic operation gets a scheduling point in front of it
 						case "time":
 							switch x.Sel.Name {
 							case "Now", "Sleep", "After", "NewTimer", "NewTicker", "AfterFunc", "Since", "Tick":
@@ -307,6 +308,31 @@ func rewriteConcurrency(f *ast.File, info *types.Info, sum *summary, chanRanges 
 			return call("verifRecv", u.X)
 		}
 		if c, ok := e.(*ast.CallExpr); ok {
+			if se, ok := c.Fun.(*ast.SelectorExpr); ok {
+				// sync/atomic: a scheduling point in front of the operation (atomics
+				// never block and are sequentially consistent, so an interleaving
+				// of whole operations is all there is to explore)
+				if id, ok := se.X.(*ast.Ident); ok {
+					if pn, ok := info.Uses[id].(*types.PkgName); ok && pn.Imported().Path() == "sync/atomic" && len(c.Args) > 0 {
+						c.Args[0] = call("verifAt", c.Args[0])
+						sum.AtomicOps++
+						return e
+					}
+				}
+				if sel := info.Selections[se]; sel != nil && sel.Kind() == types.MethodVal {
+					if fn, ok := sel.Obj().(*types.Func); ok && fn.Pkg() != nil && fn.Pkg().Path() == "sync/atomic" {
+						if tv, ok := info.Types[se.X]; ok {
+							if _, isPtr := tv.Type.Underlying().(*types.Pointer); isPtr {
+								se.X = call("verifAt", se.X)
+							} else {
+								se.X = call("verifAt", &ast.UnaryExpr{Op: token.AND, X: se.X})
+							}
+							sum.AtomicOps++
+							return e
+						}
+					}
+				}
+			}
 			if se, ok := c.Fun.(*ast.SelectorExpr); ok && se.Sel.Name == "NewCond" {
 				if id, ok := se.X.(*ast.Ident); ok {
 					if pn, ok := info.Uses[id].(*types.PkgName); ok && pn.Imported().Path() == "sync" {
@@ -1058,6 +1084,8 @@ type VerifHook interface {
 	// a mutex (channel, WaitGroup): the task is not picked again before some
 	// other task has made progress.
 	Wait(what string)
+	// Atomic is a scheduling point in front of a sync/atomic operation.
+	Atomic()
 	// Unsupported reports an operation the simulator cannot model (the run ends
 	// without verdict, exit 2): a send on an unbuffered channel is a rendezvous
 	// of two blocked goroutines, which cooperative polling cannot produce.
@@ -1299,6 +1327,14 @@ func verifWait(what string) {
 		return
 	}
 	runtime.Gosched()
+}
+
+// verifAt stands in front of a sync/atomic operation: a scheduling point.
+func verifAt[T any](v T) T {
+	if h := VerifSimHook; h != nil {
+		h.Atomic()
+	}
+	return v
 }
 
 // verifGo is a go statement of the code under test.
